@@ -319,9 +319,6 @@ def _check_form(case, form):
     labels = _labels_of(dict(D))
     if len(labels) > case.get("maxvars", MAXVARS_QUICK):
         return Skip("scope: %d variables in the %s form" % (len(labels), form))
-    n = len(H.mapping)
-    if not set(range(n)) <= labels:
-        return Skip("a mapped label does not occur in the %s form (its minimisers would not assign it)" % form)
     obj, sols = getattr(qv().utils, solver)(D, all_solutions=True)
     if obj is None or abs(obj - opt) > 1e-9 * max(1, abs(opt)):
         return Fail("minimum of H.%s() is %r, constrained optimum of f is %r" % (method, obj, opt),
@@ -376,11 +373,13 @@ def _gen_remove(ctx):
 
 
 @clause("C08.remove_ancilla", "C08", gen=_gen_remove,
-        nontrivial=lambda c: c["kind"] == "workflow" or any(str(k).startswith("__a") for k in c["sol"]))
+        nontrivial=lambda c: (any(k[0] == "rel" and k[1] != "eq" for k in c["case"]["cons"])
+                              if c["kind"] == "workflow" else any(str(k).startswith("__a") for k in c["sol"])))
 def check_remove_ancilla(case):
     """remove_ancilla_from_solution returns exactly the non-ancilla part of a solution: the entries whose label's
     str does not start with '__a', values untouched, argument not modified; on a solution of the workflow model this
-    is exactly the assignment of the model's own variables. Non-trivial: the solution contains an ancilla."""
+    is exactly the assignment of the model's own variables. Non-trivial: the solution contains an ancilla (synthetic
+    cases) / the model has an inequality constraint, the kind that introduces ancillas (workflow cases)."""
     if case["kind"] == "synthetic":
         cls = cls_of(case["type"])
         sol = dict(case["sol"])
